@@ -801,7 +801,19 @@ func c13Client(p *ana.Prog, r *ana.Result) {
 	{
 		okAll := true
 		var wit []string
-		for e := range algo.Accept {
+		// the edges on which both the SPI and the algorithm test have passed (in either order)
+		both := ana.EdgeSet{}
+		for _, pr := range [][2]*ana.Gate{{spi, algo}, {algo, spi}} {
+			for e := range pr[1].Accept {
+				for f := range pr[0].Accept {
+					t := f.From.Succs[f.Succ]
+					if len(t.Preds) == 1 && (t == e.From || t.Dominates(e.From)) {
+						both[e] = true
+					}
+				}
+			}
+		}
+		for e := range both {
 			e := e
 			s := &ana.Search{Fn: fn, Via: func(x ana.Edge) bool { return x == e }, Stop: func(in ssa.Instruction) bool { return in == ssa.Instruction(verify) || isRead(in) }, Target: succ}
 			if found, w := s.Run(rd); found {
@@ -809,7 +821,7 @@ func c13Client(p *ana.Prog, r *ana.Result) {
 				wit = w
 			}
 		}
-		if okAll && len(algo.Accept) > 0 {
+		if okAll && len(both) > 0 {
 			r.Ok("C13.mac", fname, "verify-when-key-held", posOf(p, verify), "with a key held, a response carrying the matching authenticator reaches success only through MAC verification")
 		} else {
 			r.Violate("C13.mac", fname, "verify-when-key-held", posOf(p, verify), "a response carrying the matching authenticator can be accepted without MAC verification although a key is held", wit...)
